@@ -23,6 +23,58 @@ theorem consts_ok : 0 < MAXLEN ∧ MAXLEN ≤ 60 ∧ MAXLEN ≤ Generated.MAX_PA
 /-- number of fragments of a payload -/
 def nFrags (payload : Bytes) : Nat := (payload.length + MAXLEN - 1) / MAXLEN
 
+/-! ### helpers -/
+
+theorem talker_cases (t : Bytes) (h : talkerOk t = true) :
+    t = [65, 73, 86, 68, 77] ∨ t = [65, 73, 86, 68, 79] := by
+  unfold talkerOk at h
+  simp only [Bool.or_eq_true, decide_eq_true_eq] at h
+  rcases h with h | h
+  · left; rw [h]; decide
+  · right; rw [h]; decide
+
+theorem chan_cases (c : Bytes) (h : chanOk c = true) : c = [65] ∨ c = [66] := by
+  unfold chanOk at h
+  simp only [Bool.or_eq_true, decide_eq_true_eq] at h
+  rcases h with h | h
+  · left; rw [h]; decide
+  · right; rw [h]; decide
+
+theorem talker_length (t : Bytes) (h : talkerOk t = true) : t.length = 5 := by
+  rcases talker_cases t h with rfl | rfl <;> rfl
+
+theorem chan_length (c : Bytes) (h : chanOk c = true) : c.length = 1 := by
+  rcases chan_cases c h with rfl | rfl <;> rfl
+
+theorem nFrags_le (payload : Bytes) (hp : payload.length ≤ 9 * MAXLEN) : nFrags payload ≤ 9 := by
+  have hm := consts_ok.1
+  unfold nFrags
+  apply Nat.le_of_lt_succ
+  apply Nat.div_lt_of_lt_mul
+  omega
+
+theorem natToDecAux_digits : ∀ (fuel n : Nat) (acc : Bytes), (∀ b ∈ acc, 48 ≤ b ∧ b ≤ 57) →
+    ∀ b ∈ natToDecAux fuel n acc, 48 ≤ b ∧ b ≤ 57 := by
+  intro fuel
+  induction fuel with
+  | zero => intro n acc h; exact h
+  | succ fuel ih =>
+    intro n acc h
+    simp only [natToDecAux]
+    split
+    · intro b hb
+      rcases List.mem_cons.mp hb with rfl | hb
+      · omega
+      · exact h b hb
+    · apply ih
+      intro b hb
+      rcases List.mem_cons.mp hb with rfl | hb
+      · omega
+      · exact h b hb
+
+theorem natToDec_all_digits (n : Nat) : ∀ b ∈ natToDec n, 48 ≤ b ∧ b ≤ 57 :=
+  natToDecAux_digits _ _ [] (by simp)
+
 /-- **Structure.** The encoder emits `⌈|payload| / max_len⌉` sentences and the `i`-th one is the
 rendering of: the requested talker/type, `n` fragments, number `i+1`, common sequence id (`0`, or
 empty when there is one fragment), the channel, the `i`-th chunk of the payload, and the fill-bit
@@ -31,29 +83,106 @@ count on the last fragment only (0 on the others); each with the two-digit XOR c
 theorem C09_structure (payload talker chan : Bytes) (fill : Nat) (ht : talkerOk talker = true)
     (hc : chanOk chan = true) :
     aisToNmea MAXLEN payload talker chan fill =
-      .ok ((List.range (nFrags payload)).map fun i => renderFrag (fragOf MAXLEN payload talker chan fill i)) := by
-  sorry
+      .ok ((List.range (nFrags payload)).map fun i => renderFrag (fragOf MAXLEN payload talker chan fill i)) :=
+  aisToNmea_eq MAXLEN consts_ok.1 payload talker chan fill (talker_length talker ht) (chan_length chan hc)
 
 /-- the chunks concatenate to the payload -/
 theorem C09_chunks (payload : Bytes) :
     ((List.range (nFrags payload)).map fun i => (payload.drop (i * MAXLEN)).take MAXLEN).flatten = payload := by
-  sorry
+  have hm := consts_ok.1
+  have e : chunks MAXLEN payload =
+      (List.range (nFrags payload)).map fun i => (payload.drop (i * MAXLEN)).take MAXLEN := by
+    have hl := chunks_length MAXLEN hm payload
+    apply List.ext_getElem
+    · simp [hl, nFrags]
+    · intro i h1 h2
+      rw [chunks_getElem MAXLEN hm]; simp
+  rw [← e, chunks_flatten MAXLEN hm]
+
+/-- membership in the output: the `i`-th rendered fragment -/
+theorem mem_out (payload talker chan : Bytes) (fill : Nat) (ht : talkerOk talker = true)
+    (hc : chanOk chan = true) (out : List Bytes)
+    (h : aisToNmea MAXLEN payload talker chan fill = .ok out) (s : Bytes) (hs : s ∈ out) :
+    ∃ i, i < nFrags payload ∧ s = renderFrag (fragOf MAXLEN payload talker chan fill i) := by
+  rw [C09_structure payload talker chan fill ht hc] at h
+  cases h
+  simp only [List.mem_map, List.mem_range] at hs
+  obtain ⟨i, hi, rfl⟩ := hs
+  exact ⟨i, hi, rfl⟩
 
 /-- **Length.** Every emitted sentence has at most 82 characters including CR LF. -/
 theorem C09_length (payload talker chan : Bytes) (fill : Nat) (ht : talkerOk talker = true)
     (hc : chanOk chan = true) (hf : fill ≤ 5) (hp : payload.length ≤ 9 * MAXLEN)
     (out : List Bytes) (h : aisToNmea MAXLEN payload talker chan fill = .ok out) :
     ∀ s ∈ out, s.length + 2 ≤ 82 := by
-  sorry
+  intro s hs
+  obtain ⟨i, hi, rfl⟩ := mem_out payload talker chan fill ht hc out h s hs
+  have hn := nFrags_le payload hp
+  have hn' : (payload.length + MAXLEN - 1) / MAXLEN ≤ 9 := hn
+  have hi' : i < (payload.length + MAXLEN - 1) / MAXLEN := hi
+  obtain ⟨_, hm60, _, _⟩ := consts_ok
+  rw [renderFrag_length]
+  have h1 : (natToDec (fragOf MAXLEN payload talker chan fill i).cnt).length = 1 :=
+    natToDec_length_one _ (by simp only [fragOf]; exact hn')
+  have h2 : (natToDec (fragOf MAXLEN payload talker chan fill i).num).length = 1 :=
+    natToDec_length_one _ (by simp only [fragOf]; omega)
+  have h3 : (natToDec (fragOf MAXLEN payload talker chan fill i).fill).length = 1 :=
+    natToDec_length_one _ (by simp only [fragOf]; split <;> omega)
+  have h4 : (seqBytes (fragOf MAXLEN payload talker chan fill i).seq).length ≤ 1 := by
+    simp only [fragOf]; split
+    · simp only [seqBytes]; rw [natToDec_length_one 0 (by omega)]; omega
+    · simp [seqBytes]
+  have h5 : (fragOf MAXLEN payload talker chan fill i).chunk.length ≤ 60 := by
+    simp only [fragOf, List.length_take]; omega
+  have h6 : (fragOf MAXLEN payload talker chan fill i).talker.length +
+      (fragOf MAXLEN payload talker chan fill i).kind.length = 5 := by
+    simp only [fragOf, List.length_take, List.length_drop, talker_length talker ht]; rfl
+  have h7 : (fragOf MAXLEN payload talker chan fill i).chan.length = 1 := chan_length chan hc
+  omega
+
+
+theorem star_not_mem_natToDec (n : Nat) : STAR ∉ natToDec n := by
+  intro h
+  have := natToDec_all_digits n STAR h
+  simp [STAR] at this
+
+theorem star_not_mem_fragBody (f : FragSpec) (h1 : STAR ∉ f.talker) (h2 : STAR ∉ f.kind)
+    (h3 : STAR ∉ f.chan) (h4 : STAR ∉ f.chunk) : STAR ∉ fragBody f := by
+  have hseq : STAR ∉ seqBytes f.seq := by
+    cases f.seq with
+    | none => simp [seqBytes]
+    | some n => exact star_not_mem_natToDec n
+  have hc : STAR ≠ COMMA := by decide
+  simp only [fragBody, List.mem_append, List.mem_singleton, not_or]
+  exact ⟨⟨⟨⟨⟨⟨⟨⟨⟨⟨⟨⟨⟨h1, h2⟩, hc⟩, star_not_mem_natToDec _⟩, hc⟩, star_not_mem_natToDec _⟩, hc⟩, hseq⟩,
+    hc⟩, h3⟩, hc⟩, h4⟩, hc⟩, star_not_mem_natToDec _⟩
+
+theorem mem_chunk_armor (payload : Bytes) (harm : payload.all isArmorChar = true) (a b : Nat) :
+    ((payload.drop a).take b).all isArmorChar = true := by
+  rw [List.all_eq_true] at harm ⊢
+  intro x hx
+  exact harm x (List.mem_of_mem_drop (List.mem_of_mem_take hx))
 
 /-- **Head, checksum, alphabet.** Every emitted sentence starts with `!` and the talker/type, ends
-with `*` and the two hex digits of the XOR of its body. -/
+with `*` and the two hex digits of the XOR of its body.  The payload must be armored (`harm`):
+`ais_to_nmea_0183` copies the payload verbatim, so a payload containing `*` (e.g. `b'*'`, which gives
+`!AIVDM,1,1,,A,*,0*0C`) puts a `*` into the body and `STAR ∉ body` fails. -/
 theorem C09_head_checksum (payload talker chan : Bytes) (fill : Nat) (ht : talkerOk talker = true)
-    (hc : chanOk chan = true) (out : List Bytes)
+    (hc : chanOk chan = true) (harm : payload.all isArmorChar = true) (out : List Bytes)
     (h : aisToNmea MAXLEN payload talker chan fill = .ok out) :
     ∀ s ∈ out, ∃ body, s = [33] ++ body ++ [STAR] ++ hex2 (xorAll body) ∧ STAR ∉ body ∧
       body.take 5 = talker := by
-  sorry
+  intro s hs
+  obtain ⟨i, hi, rfl⟩ := mem_out payload talker chan fill ht hc out h s hs
+  refine ⟨fragBody (fragOf MAXLEN payload talker chan fill i), rfl, ?_, ?_⟩
+  · apply star_not_mem_fragBody
+    · rcases talker_cases talker ht with rfl | rfl <;> simp [fragOf, STAR]
+    · rcases talker_cases talker ht with rfl | rfl <;> simp [fragOf, STAR]
+    · rcases chan_cases chan hc with rfl | rfl <;> simp [fragOf, STAR]
+    · intro hm
+      have := List.all_eq_true.mp (mem_chunk_armor payload harm (i * MAXLEN) MAXLEN) STAR hm
+      simp [STAR, isArmorChar] at this
+  · rcases talker_cases talker ht with rfl | rfl <;> simp [fragBody, fragOf]
 
 /-- **Armoring and fill bits.** The armored payload uses only the 64-character alphabet and the
 fill-bit count is the padding to the next six-bit boundary; de-armoring gives the bits back. -/
@@ -63,6 +192,34 @@ theorem C09_fill (bits : Bits) :
     dearmor (encodeAscii6 bits).1 (encodeAscii6 bits).2 = .ok bits :=
   ⟨(encodeAscii6_chars bits).1, encodeAscii6_fill bits, dearmor_encodeAscii6 bits⟩
 
+theorem fragOK_fragOf (payload talker chan : Bytes) (fill : Nat) (ht : talkerOk talker = true)
+    (hc : chanOk chan = true) (hf : fill ≤ 5) (hp : payload.length ≤ 9 * MAXLEN)
+    (harm : payload.all isArmorChar = true) (i : Nat) (hi : i < nFrags payload) :
+    FragOK K (fragOf MAXLEN payload talker chan fill i) = true := by
+  have hn : (payload.length + MAXLEN - 1) / MAXLEN ≤ 9 := nFrags_le payload hp
+  have hi' : i < (payload.length + MAXLEN - 1) / MAXLEN := hi
+  obtain ⟨_, _, hmp, hfc⟩ := consts_ok
+  have hchunk := mem_chunk_armor payload harm (i * MAXLEN) MAXLEN
+  simp only [FragOK, fragOf, Bool.and_eq_true, Bool.or_eq_true, beq_iff_eq]
+  refine ⟨⟨⟨⟨⟨⟨⟨⟨⟨⟨⟨⟨⟨?_, ?_⟩, ?_⟩, ?_⟩, ?_⟩, ?_⟩, ?_⟩, ?_⟩, ?_⟩, ?_⟩, ?_⟩, hchunk⟩, ?_⟩, ?_⟩
+  · rcases talker_cases talker ht with rfl | rfl <;> rfl
+  · rcases talker_cases talker ht with rfl | rfl <;> decide
+  · rcases talker_cases talker ht with rfl | rfl
+    · left; decide
+    · right; decide
+  · exact decide_eq_true (by omega)
+  · exact decide_eq_true (by omega)
+  · exact decide_eq_true (by omega)
+  · exact decide_eq_true (by omega)
+  · exact decide_eq_true (by omega)
+  · exact decide_eq_true (by omega)
+  · by_cases hgt : (payload.length + MAXLEN - 1) / MAXLEN > 1
+    · rw [if_pos hgt]; rfl
+    · rw [if_neg hgt]
+  · rcases chan_cases chan hc with rfl | rfl <;> decide
+  · exact decide_eq_true (by simp only [List.length_take]; omega)
+  · exact decide_eq_true (by split <;> omega)
+
 /-- **Every emitted sentence is accepted by the parser** and read back as written: flagged valid,
 numbered `i+1` of `n`, common sequence id, fill bits only on the last fragment. -/
 theorem C09_parse (payload talker chan : Bytes) (fill : Nat) (ht : talkerOk talker = true)
@@ -71,7 +228,181 @@ theorem C09_parse (payload talker chan : Bytes) (fill : Nat) (ht : talkerOk talk
     ∃ bits, dearmor (fragOf MAXLEN payload talker chan fill i).chunk (fragOf MAXLEN payload talker chan fill i).fill = .ok bits ∧
       produce K (renderFrag (fragOf MAXLEN payload talker chan fill i)) =
         .ok (expectedSentence (fragOf MAXLEN payload talker chan fill i) bits) := by
-  sorry
+  have hok := fragOK_fragOf payload talker chan fill ht hc hf hp harm i hi
+  have hchunk : (fragOf MAXLEN payload talker chan fill i).chunk.all isArmorChar = true :=
+    mem_chunk_armor payload harm (i * MAXLEN) MAXLEN
+  have hfill : (fragOf MAXLEN payload talker chan fill i).fill ≤ 5 := by
+    simp only [fragOf]; split <;> omega
+  -- `dearmor_ok` with or without a bound on the fill-bit count
+  obtain ⟨bits, hb⟩ : ∃ bits, dearmor (fragOf MAXLEN payload talker chan fill i).chunk
+      (fragOf MAXLEN payload talker chan fill i).fill = .ok bits := by
+    first
+      | exact dearmor_ok _ _ hchunk
+      | exact dearmor_ok _ _ hchunk hfill
+      | exact dearmor_ok _ _ hfill hchunk
+  exact ⟨bits, hb, produce_renderFrag K _ hok bits hb⟩
+
+/-! ### the one-shot assembly of the emitted sentences -/
+
+/-- the collection loop on arguments that all parse to AIS sentences with the same fragment count -/
+theorem oneShotCollect_ok (k : NmeaConsts) (c : Int) : ∀ (args : List Bytes) (ss : List Sentence),
+    args.map (produce k) = ss.map .ok → (∀ s ∈ ss, s.isAIS = true ∧ s.fragCnt = c) →
+    ∀ (temp : List Sentence) (cnt : Int),
+    oneShotCollect k false args temp cnt = .ok (temp ++ ss, if ss.isEmpty then cnt else c) := by
+  intro args
+  induction args with
+  | nil =>
+    intro ss hmap _ temp cnt
+    cases ss with
+    | nil => simp [oneShotCollect]
+    | cons s ss' => simp at hmap
+  | cons a rest ih =>
+    intro ss hmap hall temp cnt
+    cases ss with
+    | nil => simp at hmap
+    | cons s ss' =>
+      simp only [List.map_cons, List.cons.injEq] at hmap
+      obtain ⟨hp, hrest⟩ := hmap
+      obtain ⟨hais, hcnt⟩ := hall s (by simp)
+      unfold oneShotCollect
+      rw [hp]
+      simp only [hais, if_true, Bool.false_eq_true, false_and, if_false]
+      rw [ih ss' hrest (fun s hs => hall s (List.mem_cons_of_mem _ hs)), hcnt]
+      simp
+
+/-- the checks after the loop pass on the fragments `1 … n` in order, and the result joins them -/
+theorem oneShotFinish_range (g : Nat → Sentence) (n : Nat) (hn : 1 ≤ n)
+    (hnum : ∀ i, (g i).fragNum = ((i + 1 : Nat) : Int)) :
+    ∃ s, oneShotFinish ((List.range n).map g) n = .ok s ∧
+      s.bits = (((List.range n).map g).map (·.bits)).flatten ∧
+      s.payload = (((List.range n).map g).map (·.payload)).flatten ∧
+      s.isValid = ((List.range n).map g).all (·.isValid) ∧
+      s.aisId = getInt (((List.range n).map g).map (·.bits)).flatten 0 6 := by
+  have hsorted : sortByNum ((List.range n).map g) = (List.range n).map g := by
+    apply sortByNum_sorted
+    rw [List.pairwise_map]
+    refine List.Pairwise.imp ?_ List.pairwise_lt_range
+    intro a b hab
+    rw [hnum, hnum]; omega
+  have hmissing : ((List.range (n : Int).toNat).filter fun (i : Nat) =>
+      ¬ (((List.range n).map g).map (·.fragNum)).contains ((i : Int) + 1)) = [] := by
+    rw [List.filter_eq_nil_iff]
+    intro i hi
+    simp only [Int.toNat_natCast, List.mem_range] at hi
+    simp only [List.contains_iff_mem, List.mem_map, List.mem_range, decide_not, Bool.not_eq_true',
+      decide_eq_false_iff_not, Classical.not_not]
+    exact ⟨g i, ⟨i, hi, rfl⟩, by rw [hnum]; omega⟩
+  unfold oneShotFinish
+  simp only [hmissing]
+  generalize htemp : (List.range n).map g = temp at *
+  have hlen : temp.length = n := by rw [← htemp]; simp
+  cases temp with
+  | nil => simp at hlen; omega
+  | cons m0 rest =>
+    have h1 : ¬ ((m0 :: rest).isEmpty = true) := by simp
+    have h2 : ¬ (((m0 :: rest).length : Int) > (n : Int)) := by rw [hlen]; omega
+    rw [if_neg h1, if_neg h2]
+    simp only [List.isEmpty_nil, not_true_eq_false, if_false, assemble, hsorted]
+    exact ⟨_, rfl, rfl, rfl, rfl, rfl⟩
+
+/-- de-armoring fragment by fragment: all parts but the last carry no fill bits -/
+theorem dearmor_range (ch : Nat → Bytes) (B : Nat → Bits) : ∀ (m : Nat),
+    (∀ i, i < m → (ch i).all isArmorChar = true ∧ dearmor (ch i) 0 = .ok (B i)) →
+    ∀ (b : Bytes) (xb : Bits) (fill : Nat), b ≠ [] → dearmor b fill = .ok xb →
+    dearmor (((List.range m).map ch).flatten ++ b) fill =
+      .ok (((List.range m).map B).flatten ++ xb) := by
+  intro m
+  induction m with
+  | zero => intro _ b xb fill _ hb; simpa using hb
+  | succ m ih =>
+    intro hparts b xb fill hne hb
+    obtain ⟨harm, hd⟩ := hparts m (Nat.lt_succ_self _)
+    have hstep : dearmor (ch m ++ b) fill = .ok (B m ++ xb) := by
+      rw [dearmor_append (ch m) b fill harm hne (B m) hd, hb]
+    have := ih (fun i hi => hparts i (Nat.lt_succ_of_lt hi)) (ch m ++ b) (B m ++ xb) fill
+      (by simp [hne]) hstep
+    simp only [List.range_succ, List.map_append, List.flatten_append, List.map_cons, List.map_nil,
+      List.flatten_cons, List.flatten_nil, List.append_nil, List.append_assoc]
+    exact this
+
+/-- the bits the parser reads from the `i`-th emitted fragment -/
+def fragBits (payload talker chan : Bytes) (fill : Nat) (i : Nat) : Bits :=
+  match dearmor (fragOf MAXLEN payload talker chan fill i).chunk
+      (fragOf MAXLEN payload talker chan fill i).fill with
+  | .ok b => b
+  | .error _ => []
+
+/-- the sentence object the parser produces for the `i`-th emitted fragment -/
+def parsedFrag (payload talker chan : Bytes) (fill : Nat) (i : Nat) : Sentence :=
+  expectedSentence (fragOf MAXLEN payload talker chan fill i) (fragBits payload talker chan fill i)
+
+theorem fragBits_spec (payload talker chan : Bytes) (fill : Nat) (ht : talkerOk talker = true)
+    (hc : chanOk chan = true) (hf : fill ≤ 5) (hp : payload.length ≤ 9 * MAXLEN)
+    (harm : payload.all isArmorChar = true) (i : Nat) (hi : i < nFrags payload) :
+    dearmor (fragOf MAXLEN payload talker chan fill i).chunk
+        (fragOf MAXLEN payload talker chan fill i).fill = .ok (fragBits payload talker chan fill i) ∧
+      produce K (renderFrag (fragOf MAXLEN payload talker chan fill i)) =
+        .ok (parsedFrag payload talker chan fill i) := by
+  obtain ⟨b, hb, hprod⟩ := C09_parse payload talker chan fill ht hc hf hp harm i hi
+  have e : fragBits payload talker chan fill i = b := by simp only [fragBits, hb]
+  unfold parsedFrag
+  rw [e]; exact ⟨hb, hprod⟩
+
+theorem one_le_nFrags (payload : Bytes) (h : payload ≠ []) : 1 ≤ nFrags payload := by
+  have hm := consts_ok.1
+  unfold nFrags
+  have hl : 1 ≤ payload.length := by
+    cases payload with
+    | nil => exact absurd rfl h
+    | cons _ _ => simp
+  rw [Nat.le_div_iff_mul_le hm]; omega
+
+/-- the fragments' bits concatenate to the de-armoring of the whole payload -/
+theorem fragBits_flatten (payload talker chan : Bytes) (fill : Nat) (ht : talkerOk talker = true)
+    (hc : chanOk chan = true) (hf : fill ≤ 5) (hp : payload.length ≤ 9 * MAXLEN)
+    (harm : payload.all isArmorChar = true) (hne : payload ≠ []) (bits : Bits)
+    (hd : dearmor payload fill = .ok bits) :
+    ((List.range (nFrags payload)).map (fragBits payload talker chan fill)).flatten = bits := by
+  have hm := consts_ok.1
+  have hn1 := one_le_nFrags payload hne
+  obtain ⟨m, hm1⟩ : ∃ m, nFrags payload = m + 1 := ⟨nFrags payload - 1, by omega⟩
+  let ch : Nat → Bytes := fun i => (payload.drop (i * MAXLEN)).take MAXLEN
+  have hparts : ∀ i, i < m → (ch i).all isArmorChar = true ∧
+      dearmor (ch i) 0 = .ok (fragBits payload talker chan fill i) := by
+    intro i hi
+    refine ⟨mem_chunk_armor payload harm _ _, ?_⟩
+    have := (fragBits_spec payload talker chan fill ht hc hf hp harm i (by omega)).1
+    have hfill : (fragOf MAXLEN payload talker chan fill i).fill = 0 := by
+      have : ¬ (i + 1 = (payload.length + MAXLEN - 1) / MAXLEN) := by
+        show ¬ (i + 1 = nFrags payload); omega
+      simp only [fragOf, if_neg this]
+    rw [hfill] at this
+    exact this
+  have hlast : dearmor (ch m) fill = .ok (fragBits payload talker chan fill m) := by
+    have := (fragBits_spec payload talker chan fill ht hc hf hp harm m (by omega)).1
+    have hfill : (fragOf MAXLEN payload talker chan fill m).fill = fill := by
+      have : m + 1 = (payload.length + MAXLEN - 1) / MAXLEN := by
+        show m + 1 = nFrags payload; omega
+      simp only [fragOf, if_pos this]
+    rw [hfill] at this
+    exact this
+  have hchne : ch m ≠ [] := by
+    have hl := chunks_length MAXLEN hm payload
+    have hlt : m < (chunks MAXLEN payload).length := by
+      rw [hl]; show m < nFrags payload; omega
+    have := (chunks_bound MAXLEN hm payload _ (List.getElem_mem hlt)).1
+    rw [chunks_getElem MAXLEN hm] at this
+    exact this
+  have hall := dearmor_range ch (fragBits payload talker chan fill) m hparts (ch m) _ fill hchne hlast
+  have hpay : ((List.range m).map ch).flatten ++ ch m = payload := by
+    have := C09_chunks payload
+    rw [hm1, List.range_succ] at this
+    simpa using this
+  rw [hpay, hd] at hall
+  rw [hm1, List.range_succ]
+  simp only [List.map_append, List.flatten_append, List.map_cons, List.map_nil, List.flatten_cons,
+    List.flatten_nil, List.append_nil]
+  exact (Except.ok.inj hall).symm
 
 /-- **The sentences taken together are accepted by the decoder**: one-shot assembly of the emitted
 sentences of `encode_ascii_6(bits)` yields a valid sentence carrying exactly `bits`. -/
@@ -81,8 +412,58 @@ theorem C09_accepted (bits : Bits) (talker chan : Bytes) (ht : talkerOk talker =
     (h : aisToNmea MAXLEN (encodeAscii6 bits).1 talker chan (encodeAscii6 bits).2 = .ok out) :
     ∃ s, oneShotAssemble K false out = .ok s ∧ s.bits = bits ∧ s.payload = (encodeAscii6 bits).1 ∧
       s.isValid = true ∧ s.aisId = getInt bits 0 6 := by
-  sorry
-
+  obtain ⟨harm, hplen⟩ := encodeAscii6_chars bits
+  have hfillv := encodeAscii6_fill bits
+  have hround := dearmor_encodeAscii6 bits
+  generalize (encodeAscii6 bits).1 = p at *
+  generalize (encodeAscii6 bits).2 = fill at *
+  have hb1 : 1 ≤ bits.length := by
+    cases bits with
+    | nil => exact absurd rfl hne
+    | cons _ _ => simp
+  have hf : fill ≤ 5 := by omega
+  have hp : p.length ≤ 9 * MAXLEN := by omega
+  have hpne : p ≠ [] := by
+    intro h0; rw [h0] at hplen; simp at hplen; omega
+  have hn1 := one_le_nFrags p hpne
+  rw [C09_structure p talker chan fill ht hc] at h
+  cases h
+  -- the parsed sentences
+  generalize hg : parsedFrag p talker chan fill = g
+  have hmap : ((List.range (nFrags p)).map fun i =>
+      renderFrag (fragOf MAXLEN p talker chan fill i)).map (produce K) =
+      ((List.range (nFrags p)).map g).map .ok := by
+    rw [List.map_map, List.map_map]
+    apply List.map_congr_left
+    intro i hi
+    simp only [Function.comp, ← hg]
+    exact (fragBits_spec p talker chan fill ht hc hf hp harm i (List.mem_range.mp hi)).2
+  have hall : ∀ s ∈ (List.range (nFrags p)).map g, s.isAIS = true ∧ s.fragCnt = (nFrags p : Int) := by
+    intro s hs
+    obtain ⟨i, _, rfl⟩ := List.mem_map.mp hs
+    rw [← hg]
+    exact ⟨rfl, rfl⟩
+  have hcollect := oneShotCollect_ok K (nFrags p) _ _ hmap hall [] 1
+  have hnonempty : ((List.range (nFrags p)).map g).isEmpty = false := by
+    cases hnf : nFrags p with
+    | zero => omega
+    | succ k => simp [List.range_succ]
+  rw [hnonempty] at hcollect
+  simp only [List.nil_append, Bool.false_eq_true, if_false] at hcollect
+  obtain ⟨s, hs, hbits, hpay, hvalid, hid⟩ := oneShotFinish_range g (nFrags p) hn1 (fun i => by rw [← hg]; rfl)
+  have hflat : (((List.range (nFrags p)).map g).map (·.bits)).flatten = bits := by
+    rw [List.map_map, ← hg]
+    exact fragBits_flatten p talker chan fill ht hc hf hp harm hpne bits hround
+  refine ⟨s, ?_, ?_, ?_, ?_, ?_⟩
+  · unfold oneShotAssemble
+    rw [hcollect]
+    exact hs
+  · rw [hbits, hflat]
+  · rw [hpay, List.map_map, ← hg]
+    exact C09_chunks p
+  · rw [hvalid, List.all_map, ← hg]
+    simp [parsedFrag, expectedSentence]
+  · rw [hid, hflat]
 /-- **Domain.** Every message class of the source has at most 1064 bits, i.e. at most 178 armored
 characters, i.e. at most three fragments. -/
 theorem C09_domain :
